@@ -159,6 +159,16 @@ func (m *Machine) external(st *State, fr *Frame, instr ssa.Instruction, fn *ssa.
 		}
 		return rets
 	}
+	if i := strings.Index(name, "."); i > 0 {
+		switch strings.TrimPrefix(strings.TrimPrefix(name[:i], "(*"), "(") {
+		case "strings", "bytes", "strconv", "unicode", "unicode/utf8", "unicode/utf16", "math", "math/bits", "path", "path/filepath":
+			// side-effect-free standard library functions without a precise model: total, result unconstrained.
+			// Sound for proofs (anything that depends on the result stays unproved) and it keeps a change that
+			// starts using such a function decidable instead of undecided.
+			use("pure standard-library function: no effect on library state, result unconstrained")
+			return m.freshRets(st, sig, "purelib")
+		}
+	}
 	m.problem("no trusted model for external function %s (called from %s)", name, relName(fr.fn))
 	st.dead = true
 	return m.freshRets(st, sig, "nomodel")
@@ -211,6 +221,7 @@ func (m *Machine) ifaceModel(st *State, fr *Frame, instr ssa.Instruction, iname 
 	case iname == "Handler.Serve":
 		use("user handler: returns; does not modify the message before returning (it may keep it); touches library state only through the public API")
 		m.escapeValue(st, sig.Params().At(0).Type(), args[0])
+		m.userCodeUnlocked(st, fr, iname)
 		m.addEvent(st, iname, all, nil)
 		m.timePasses(st)
 		return nil
